@@ -275,6 +275,67 @@ func init() {
 							e.pass("R3", construct, e.ipos(c), "condition evaluated before any of the %d write site(s); the refused edge reaches no write", len(ws))
 						}
 					})
+					// the verdict may be obtained through a helper that turns a refusal into an error
+					instrs(fn, func(in ssa.Instruction) {
+						c, ok := in.(*ssa.Call)
+						if !ok || c.Call.StaticCallee() == nil || !e.verdictHelper(c.Call.StaticCallee(), evs, cs) {
+							return
+						}
+						h := c.Call.StaticCallee()
+						n++
+						construct := e.fname(fn) + ":verdict-before-write"
+						bad := ""
+						for _, w := range ws {
+							if mayFollow(w.in, c) {
+								bad = fmt.Sprintf("the condition is evaluated (in %s) at %s after %s at %s", e.fname(h), e.ipos(c), w.what, e.ipos(w.in))
+							}
+						}
+						// the error result must be tested, and its non-nil edge must reach no write
+						ei := errResultIndex(h)
+						var errVals []ssa.Value
+						if h.Signature.Results().Len() == 1 {
+							errVals = append(errVals, c)
+						} else {
+							for _, ex := range extractOf(c, ei) {
+								errVals = append(errVals, ex)
+							}
+						}
+						tested := false
+						for _, ev := range errVals {
+							for _, r := range refsOf(ev) {
+								b, isB := r.(*ssa.BinOp)
+								if !isB {
+									continue
+								}
+								_, nonNilOnTrue, isNT := nilTest(b)
+								if !isNT {
+									continue
+								}
+								for _, rr := range refsOf(b) {
+									ifi, isIf := rr.(*ssa.If)
+									if !isIf {
+										continue
+									}
+									tested = true
+									refused := ifi.Block().Succs[1]
+									if nonNilOnTrue {
+										refused = ifi.Block().Succs[0]
+									}
+									if w := firstWriteReachable(ws, refused); w != nil {
+										bad = fmt.Sprintf("on the refused edge of the condition, %s at %s is still reachable", w.what, e.ipos(w.in))
+									}
+								}
+							}
+						}
+						if !tested {
+							bad = fmt.Sprintf("the verdict returned by %s is never tested: a refused condition does not stop the write", e.fname(h))
+						}
+						if bad != "" {
+							e.fail("R3", construct, e.ipos(c), "%s", bad)
+						} else {
+							e.pass("R3", construct, e.ipos(c), "condition evaluated (in %s) before any of the %d write site(s); the refused edge reaches no write", e.fname(h), len(ws))
+						}
+					})
 				}
 				if n < 2 {
 					e.minCount("R3", 2)
@@ -606,4 +667,49 @@ func carriesCode(e *Engine, v ssa.Value, code string) bool {
 		}
 	}
 	return ok
+}
+
+// verdictHelper: h evaluates a write condition (calls one of the evaluators), writes nothing itself, and turns the refusal
+// into a non-nil error: every return on the refused edge of that evaluation carries a non-nil error.
+func (e *Engine) verdictHelper(h *ssa.Function, evs []*ssa.Function, cs *coreState) bool {
+	if h == nil || h.Blocks == nil || e.fnRole(h) != "core" || errResultIndex(h) < 0 || len(cs.writeEvents(h)) > 0 {
+		return false
+	}
+	for _, ev := range evs {
+		if h == ev {
+			return false
+		}
+	}
+	var call *ssa.Call
+	instrs(h, func(in ssa.Instruction) {
+		if c, ok := in.(*ssa.Call); ok {
+			for _, ev := range evs {
+				if c.Call.StaticCallee() == ev {
+					call = c
+				}
+			}
+		}
+	})
+	if call == nil {
+		return false
+	}
+	ei := errResultIndex(h)
+	refusedReturns := 0
+	for _, r := range returnsOf(h) {
+		refused := false
+		for _, cd := range condsAt(r.Block()) {
+			cd = normCond(cd)
+			if ex, ok := cd.V.(*ssa.Extract); ok && ex.Tuple == ssa.Value(call) && ex.Index == 1 && !cd.Val {
+				refused = true
+			}
+		}
+		if !refused {
+			continue
+		}
+		refusedReturns++
+		if isNilConst(retVals(r)[ei]) {
+			return false
+		}
+	}
+	return refusedReturns > 0
 }
